@@ -187,7 +187,7 @@ fn main() {
         }
     } else {
         let mut rng = Rng::new(args.seed ^ 0xc04e);
-        let cases = if args.tier == "thorough" { 20000 } else { 1500 };
+        let cases = if args.tier == "thorough" { 20000 } else { 5000 };
         for i in 0..cases {
             let n = [1usize, 1, 2][(i % 3) as usize];
             let data = rng.range(28, 90) as usize;
